@@ -188,6 +188,9 @@ func (n *AbsfsNFS) UpdateTuningOptions(fn func(*TuningOptions)) {
 	}
 	fn(&updated)
 	normalizeTuningOptions(&updated, old)
+	// The directory cache is created (or not) at construction and handlers use
+	// it whenever it exists: report what is in force rather than what was asked.
+	updated.EnableDirCache = n.dirCache != nil
 	n.tuning.Store(&updated)
 	n.applyTuningSideEffects(old, &updated)
 }
